@@ -53,6 +53,11 @@ def units(tier, seed):
                 if weights in ([1, 1, 2], [2, 1, 1]) and size in (4, 5):
                     us.append({"kind": "gp", "weights": weights, "size": size, "minimize": minimize, "order": "elitism-last",
                                "max_dev": 2 if tier == "quick" else 3, "max_execs": 600 if tier == "quick" else 8000})
+    # elitism over individuals that it has to evaluate itself through the parallel evaluator (virtual pool: every execution /
+    # completion order of the tasks)
+    for n in (2, 3, 4):
+        for minimize in (False, True):
+            us.append({"kind": "topk-parallel", "n": n, "minimize": minimize})
     # an input population larger than the requested size (an over-producing initialiser, a shrinking population size)
     for minimize in (False, True):
         us.append({"kind": "oversized", "minimize": minimize})
@@ -447,7 +452,52 @@ def run_oversized(unit) -> UnitResult:
     return r
 
 
+def run_topk_parallel(unit) -> UnitResult:
+    import pathos.multiprocessing as pm
+
+    from geneticengine.evaluation.parallel import ParallelEvaluator
+    from checks.C13 import VirtualPool
+
+    r = UnitResult()
+    n, minimize = unit["n"], unit["minimize"]
+    real_pool = pm.ProcessingPool
+    try:
+        for fits in itertools.permutations(range(n)):
+            for k in range(1, n):
+                def run(src, fits=fits, k=k):
+                    rep = StubRepresentation(n)
+                    problem = SingleObjectiveProblem(lambda p: float(p.v), minimize=minimize)
+                    inds = [Individual(rep._new(f), rep) for f in fits]
+                    VirtualPool.source = src
+                    pm.ProcessingPool = VirtualPool
+                    out = list(ElitismStep().apply(problem, ParallelEvaluator(), rep, src, list(inds), k, 1))
+                    return [o.genotype.v for o in out], [(i.genotype.v, i.get_fitness(problem).fitness_components[0]) for i in inds if i.has_fitness(problem)]
+
+                st = ExploreStats()
+                for ex in explore(run, max_execs=200, horizon=200, stats=st):
+                    r.executions += 1
+                    w = {"unit": unit, "fitness": list(fits), "k": k, "choices": list(ex.choices)}
+                    if ex.exc is not None or ex.capped:
+                        r.count("run_raised_or_capped(other properties' business)")
+                        continue
+                    kept, seen = ex.result
+                    r.count("parallel_elitism_cases")
+                    r.nontrivial += 1
+                    top = sorted(fits, reverse=not minimize)[:k]
+                    if sorted(kept, reverse=not minimize) != top:
+                        r.add_violation(Violation(PROP, "ElitismStep.apply", "excluded-better-than-included", {"minimize": minimize, "evaluator": "parallel"}, w,
+                                                  f"elitism k={k} over unevaluated individuals {list(fits)} with the parallel evaluator: kept {kept}, the best are {top} "
+                                                  f"(fitness attached: {seen})"))
+    finally:
+        pm.ProcessingPool = real_pool
+    r.states = 1
+    r.samples.append({"topk_parallel": n, "minimize": minimize})
+    return r
+
+
 def run_unit(unit) -> UnitResult:
+    if unit["kind"] == "topk-parallel":
+        return run_topk_parallel(unit)
     if unit["kind"] == "oversized":
         return run_oversized(unit)
     if unit["kind"] == "reweighted":
